@@ -98,6 +98,7 @@ type Exec struct {
 	usedContracts map[string]bool
 	usedExterns map[string]bool
 	sweepSet    map[*ssa.Function]bool
+	topName     string
 }
 
 func newExec(p *Prog, db *ContractDB) *Exec {
@@ -121,6 +122,9 @@ func (x *Exec) assume(st *State, phi string) {
 		if q == phi {
 			return
 		}
+	}
+	if strings.Contains(phi, "(forall ") || strings.Contains(phi, "(exists ") {
+		phi = x.vc.quantified(phi)
 	}
 	st.pending = append(st.pending, phi)
 }
@@ -422,7 +426,7 @@ func (x *Exec) val(fr *Frame, st *State, v ssa.Value) string {
 		return "fn_nil"
 	}
 	if la, ok := fr.laddr[v]; ok && la != nil {
-		x.unsupp("address of local %s used as value in %s", la.alloc.Comment, fr.fn.String())
+		x.unsupp("address of local %s used as value in %s", la.alloc.Comment, shortFn(fr.fn))
 		return x.vc.freshConst("laddr", "Ptr")
 	}
 	// value not computed (e.g. defined in an unreached block): unconstrained
@@ -474,16 +478,29 @@ func intBounds(b *types.Basic) (string, string) {
 	return "(- 9223372036854775808)", "9223372036854775807"
 }
 
-// freshOfType: a fresh unconstrained value of a Go type with its basic well-formedness facts.
+// freshOfType: a fresh unconstrained value of a Go type with its basic well-formedness facts
+// (range of integers, shape of slice headers). No "oldness" facts: the value may be one of the
+// objects allocated during this symbolic execution (e.g. returned by a callee it escaped to).
 func (x *Exec) freshOfType(st *State, prefix string, t types.Type) string {
 	srt := x.vc.sortOf(t)
 	n := x.vc.freshConst(prefix, srt)
-	x.wf(st, t, n, true)
+	x.wf(st, t, n, "havoc")
 	return n
 }
 
-// wf asserts well-formedness facts of a value (global when the term is a fresh symbol).
-func (x *Exec) wf(st *State, t types.Type, term string, global bool) {
+// paramOfType: like freshOfType, plus the fact that a value that exists at function entry cannot
+// be one of the objects allocated later by this execution.
+func (x *Exec) paramOfType(st *State, prefix string, t types.Type) string {
+	srt := x.vc.sortOf(t)
+	n := x.vc.freshConst(prefix, srt)
+	x.wf(st, t, n, "param")
+	return n
+}
+
+// wf asserts well-formedness facts of a value. mode: "param" and "havoc" constrain a fresh
+// symbol and are asserted globally; "load" constrains a term read from memory and is assumed on
+// the current path.
+func (x *Exec) wf(st *State, t types.Type, term string, mode string) {
 	var phi string
 	switch x.vc.sortOf(t) {
 	case "Int":
@@ -493,13 +510,19 @@ func (x *Exec) wf(st *State, t types.Type, term string, global bool) {
 			return
 		}
 	case "Slice":
-		phi = fmt.Sprintf("(and (>= (sl_off %s) 0) (<= 0 (sl_len %s)) (<= (sl_len %s) (sl_cap %s)) (>= (sl_arr %s) 0) (<= (sl_cap %s) 281474976710656))", term, term, term, term, term, term)
+		phi = fmt.Sprintf("(and (>= (sl_off %s) 0) (<= 0 (sl_len %s)) (<= (sl_len %s) (sl_cap %s)) (<= (sl_cap %s) 281474976710656))", term, term, term, term, term)
+		if mode == "param" {
+			phi = fmt.Sprintf("(and %s (>= (sl_arr %s) 0))", phi, term)
+		}
 	case "Ptr":
+		if mode != "param" {
+			return
+		}
 		phi = fmt.Sprintf("(oldptr %s)", term)
 	default:
 		return
 	}
-	if global {
+	if mode != "load" {
 		x.vc.assert(phi)
 	} else {
 		x.assume(st, phi)
@@ -515,12 +538,15 @@ func (x *Exec) addObl(st *State, kind, name, goal, pos, text string) *Obl {
 	} else {
 		x.oblNames[name] = 1
 	}
-	o := &Obl{Name: name, Kind: kind, Reach: x.reachOf(st), Goal: goal, Pos: pos, Text: text, Fn: x.top.String()}
+	o := &Obl{Name: name, Kind: kind, Reach: x.reachOf(st), Goal: goal, Pos: pos, Text: text, Fn: x.topName}
 	x.vc.obls = append(x.vc.obls, o)
 	return o
 }
 
 func shortFn(fn *ssa.Function) string {
+	if fn == nil || fn.Signature == nil {
+		return "lemma"
+	}
 	s := fn.String()
 	s = strings.ReplaceAll(s, modPath+"/", "")
 	s = strings.ReplaceAll(s, modPath+".", "regclient.")
